@@ -115,6 +115,15 @@ def check_pair(t, v, junk=b"\xa5\x5a\x00"):
             return [Disc(f"roundtrip.decode-raises.{tk}", f"decode(encode(v)) raised {e!r}: type={t} value={v!r} wire={wire.hex()}"[:700])]
         if not R.ref_equal(got, expected):
             discs.append(Disc(f"roundtrip.value.{tk}", f"type={t} value={v!r} wire={wire.hex()} decoded={got!r} expected={expected!r}"[:900]))
+        elif isinstance(got, (list, dict)):
+            # the caller owns the decoded value: changing it must not change what the next decode returns
+            R.scramble(got)
+            try:
+                again = C.lib_decode(t, wire)
+                if not R.ref_equal(again, expected):
+                    discs.append(Disc(f"aliasing.decode.{tk}", f"type={t} wire={wire.hex()}: after the caller modified the first decoded value, a second decode returns {again!r}, expected {expected!r}"[:900]))
+            except PycommError as e:
+                discs.append(Disc(f"aliasing.decode-raises.{tk}", f"type={t}: second decode raised {e!r}"))
         # L2
         j = b"" if has_open_end(t) else junk
         s = io.BytesIO(wire + j)
